@@ -582,22 +582,51 @@ def probe_case(R, seed, idx, tier):
     ref = run_reference(R, text, o, 'line', REF_BUDGET[tier])
     if not ref['ok']:
         return dict(idx=idx, ok=False, why=ref['why'], T=0, lines=frozenset())
-    return dict(idx=idx, ok=True, why=None, T=ref['T'],
-                lines=frozenset("%s:%d" % (s_[0], s_[2]) for s_ in ref['site_list']))
+    counts = {}
+    for sid in ref['sites']:
+        sid &= ~Tracer.SPAN_BIT
+        counts[sid] = counts.get(sid, 0) + 1
+    hits = {}
+    for sid, c in counts.items():
+        s_ = ref['site_list'][sid]
+        hits["%s:%d" % (s_[0], s_[2])] = c
+    return dict(idx=idx, ok=True, why=None, T=ref['T'], lines=frozenset(hits), hits=hits)
+
+
+def _bucket(c):
+    "AFL-style hit-count bucket"
+    if c <= 3:
+        return c
+    if c <= 7:
+        return 4
+    if c <= 15:
+        return 8
+    if c <= 31:
+        return 16
+    if c <= 127:
+        return 32
+    return 128
 
 
 def select_cases(probes, n, novel_share=0.34, t_cap=200_000):
     """choose n case indices out of the probed pool: first those whose count executes package lines no earlier
     candidate executed (rare rule branches: stable states, zero batches, ties broken ...), at most novel_share*n of
     them; then the earliest remaining indices.  Deterministic: depends only on the probes, in index order."""
+    okp = [p for p in probes if p['ok'] and p['T'] <= t_cap]
+    # lines that few candidates reach at all; for those, how OFTEN a count executes them matters too (a branch
+    # taken twice in one count is a different behaviour from the same branch taken once)
+    freq = {}
+    for p in okp:
+        for ln in p['lines']:
+            freq[ln] = freq.get(ln, 0) + 1
+    rare = set(ln for ln, c in freq.items() if c <= max(2, len(okp) // 30))
     seen = set()
     novel = []
-    for p in probes:
-        if not p['ok'] or p['T'] > t_cap:
-            continue
-        new = p['lines'] - seen
-        if new:
-            seen |= p['lines']
+    for p in okp:
+        feats = set(p['lines'])
+        feats.update((ln, _bucket(c)) for ln, c in p.get('hits', {}).items() if ln in rare)
+        if feats - seen:
+            seen |= feats
             if p['idx'] >= n:           # the first n are taken anyway
                 novel.append(p['idx'])
     novel = novel[:int(n * novel_share)]
